@@ -59,6 +59,9 @@ def finite_obligations(chk):
             return f"new code {g}.is_stop({c}) = {gc.is_stop(c)}"
         if gc.translate(c) != want:
             return f"new code {g}.translate({c!r}) = {gc.translate(c)!r}, table says {want!r}"
+        cr = c.replace("T", "U")                       # RNA spelling of the same codon
+        if gc[cr] != want or gc.is_stop(cr) != (want == "*"):
+            return f"new code {g}: RNA spelling {cr!r}: lookup {gc[cr]!r}, is_stop {gc.is_stop(cr)}; table says {want!r}"
         rc = SP.rc_spec(c)
         if gc.translate(c, rc=True) != SP.TABLES[g][rc]:
             return f"new code {g}.translate({c!r}, rc=True) = {gc.translate(c, rc=True)!r}, table of rc {rc} says {SP.TABLES[g][rc]!r}"
@@ -74,6 +77,9 @@ def finite_obligations(chk):
             return f"old code {g}.is_stop({c})"
         if gc.translate(c) != want:
             return f"old code {g}.translate({c!r}) = {gc.translate(c)!r}"
+        cr = c.replace("T", "U")
+        if gc[cr] != want or gc.is_stop(cr) != (want == "*"):
+            return f"old code {g}: RNA spelling {cr!r}: lookup {gc[cr]!r}, is_stop {gc.is_stop(cr)}; table says {want!r}"
         if gc[c] != new_gc(g)[c]:
             return f"old and new code {g} disagree on {c}"
         return True
